@@ -1061,7 +1061,7 @@ def search_rdkit(ck, targets):
             q, rq = smarts(s), Chem.MolFromSmarts(s)
         except Exception:  # noqa
             continue
-        if rq is None or len(q) != rq.GetNumAtoms() or q.connected_components_count != 1:
+        if rq is None or len(q) != rq.GetNumAtoms() or len(q._compiled_query[0]) != 1:
             continue
         order = sorted(q._atoms)
         nonbonded = [(i, j) for i in range(len(order)) for j in range(i + 1, len(order)) if order[j] not in q._bonds[order[i]]]
